@@ -387,6 +387,44 @@ def run(ctx, eng):
                cm.attr_chain(v[1][1]) == 'self._settings')
     ctx.ob('FLOW.queue', f4.qual, 'reads the acknowledged (first) value',
            ok, 'self._settings[key][0]', node=f4.node)
+    # every named accessor reads through that: the value in force is the
+    # acknowledged one for enable_push, initial_window_size ... as well, and
+    # iterating the settings yields every key that is set (what fills the
+    # SETTINGS frame and the HTTP2-Settings header), known or not
+    for nm, code in (('header_table_size', 'HEADER_TABLE_SIZE'),
+                     ('enable_push', 'ENABLE_PUSH'),
+                     ('initial_window_size', 'INITIAL_WINDOW_SIZE'),
+                     ('max_frame_size', 'MAX_FRAME_SIZE'),
+                     ('max_concurrent_streams', 'MAX_CONCURRENT_STREAMS'),
+                     ('max_header_list_size', 'MAX_HEADER_LIST_SIZE'),
+                     ('enable_connect_protocol', 'ENABLE_CONNECT_PROTOCOL')):
+        fg = m.func('settings.Settings.' + nm, required=False)
+        if fg is None:
+            continue
+        okg = cm.Every()
+        for p in eng.I.run(fg):
+            if p.exit != 'return':
+                continue
+            v = p.value
+            okg(v is not None and (
+                (v[0] == 'sub' and v[1] == ('p', 'self') and
+                 cm.enum_name(v[2]) == code) or
+                (v[0] == 'call' and v[1].endswith('.get') and
+                 len(v[2]) >= 2 and v[2][0] == ('p', 'self') and
+                 cm.enum_name(v[2][1]) == code)))
+        ctx.ob('FLOW.queue', fg.qual, 'reads through the mapping', okg,
+               'self[%s] or self.get(%s, default): the acknowledged value'
+               % (code, code), node=fg.node)
+    fit = m.func('settings.Settings.__iter__')
+    okg = cm.Every()
+    for p in eng.I.run(fit):
+        if p.exit == 'return':
+            v = p.value
+            okg(v is not None and v[0] == 'call' and
+                v[1] in ('.__iter__', 'iter') and
+                cm.attr_chain(v[2][0]) == 'self._settings')
+    ctx.ob('FLOW.queue', fit.qual, 'iterates every key that is set', okg,
+           'iter(self._settings)', node=fit.node)
     none_is_absent = any(
         cm.explicit_raise(p) is not None and p.exc['names'] == {'KeyError'}
         and any(e.kind == 'assume' and e.cond[0] == 'is' and
